@@ -1695,7 +1695,7 @@ package gogen
 //@ loop 2 invariant len(xlist) == len(args) && forall(j, 0, rangeidx + 1, OperandMirrors(xlist[j], args[j]))
 //@ loop 3 invariant len(xlist) == len(args) && 0 <= i && i < len(args) && xlist[i] != nil && xlist[i].mode == 7 && xlist[i].expr == args[i].Val && xlist[i].val == args[i].CVal && xlist[i].typ == args[i].Type && ElemPeel(tt) == ElemPeel(args[i].Type) && forall(j, 0, i, OperandMirrors(xlist[j], args[j]))
 //@ assertcall infer: arg_args == xlist && len(arg_args) == len(args) && forall(j, 0, len(args), OperandMirrors(arg_args[j], args[j])) && arg_params == params && arg_posn == asI(fn.Val, positioner)
-//@ assertcall Instantiate: arg_orig == asI(sig, types.Type) && len(arg_targs) == n && n == sig.TypeParams().Len()
+//@ assertcall Instantiate: arg_orig == asI(sig, types.Type) && len(arg_targs) == n && n == sig.TypeParams().Len() && arg_validate
 
 // leading explicit type arguments of type-as-parameter functions (XGox_/XGot_): the explicit arguments are the maximal
 // prefix (after the receiver, for XGot_) of type operands, at least one; all of them explicit means direct
@@ -1709,6 +1709,29 @@ package gogen
 //@ loop 0 invariant 0 <= i && i <= n && m == i && n == sig.TypeParams().Len() && from == ite((flags / 8) % 2 == 1, 1, 0) && len(targs) == n && forall(j, 0, i, typeis(args[from + j].Type, *TypeType) && targs[j] == args[from + j].Type.(*TypeType).typ)
 //@ loop 1 invariant 0 <= i && i <= m && len(indices) == n && forall(j, 0, i, indices[j] == entry(args)[from + j].Val)
 //@ loop 2 invariant m <= i && i <= n && len(indices) == n && forall(j, 0, m, indices[j] == entry(args)[from + j].Val)
-//@ assertcall Instantiate: m == n && arg_orig == asI(sig, types.Type) && arg_targs == targs && forall(j, 0, n, targs[j] == args[from + j].Type.(*TypeType).typ)
+//@ assertcall Instantiate: arg_validate && m == n && arg_orig == asI(sig, types.Type) && arg_targs == targs && forall(j, 0, n, targs[j] == args[from + j].Type.(*TypeType).typ)
 //@ assertcall inferFunc: 1 <= m && m < n && arg_sig == sig && arg_targs == targs && arg_fn == fn && forall(j, 0, m, typeis(args[from + j].Type, *TypeType) && targs[j] == args[from + j].Type.(*TypeType).typ) && !typeis(args[from + m].Type, *TypeType)
 //@ assertcall inferFunc: len(arg_args) == len(args) - m && imp(from == 0, forall(j, 0, len(arg_args), arg_args[j] == args[m + j])) && imp(from == 1, arg_args[0] == args[0] && forall(j, 1, len(arg_args), arg_args[j] == args[m + j]))
+
+// completing a partially explicit instantiation of a generic function used as a value: the inference is seeded with
+// the callee's own type parameters, in order, and the given explicit arguments; the completed list is instantiated
+// with constraint validation on (go/types rejects a violated constraint exactly there)
+//@ func inferFuncTargs
+//@ prop C07
+//@ partial
+//@ requires pkg != nil && fn != nil && sig != nil
+//@ loop 0 invariant 0 <= i && i <= n && n == sig.TypeParams().Len() && len(tparams) == n && forall(j, 0, i, tparams[j] == sig.TypeParams().At(j))
+//@ assertcall infer: arg_tparams == tparams && len(arg_tparams) == sig.TypeParams().Len() && forall(j, 0, len(arg_tparams), arg_tparams[j] == sig.TypeParams().At(j)) && arg_targs == entry(targs) && arg_params == nil && arg_args == nil && arg_posn == asI(fn.Val, positioner)
+//@ assertcall Instantiate: arg_validate && arg_orig == asI(sig, types.Type)
+
+// every other instantiation in the builder validates constraints as well
+//@ func (*CodeBuilder).instantiate
+//@ prop C07
+//@ partial
+//@ requires len(args) >= 1 && args[0] != nil
+//@ assertcall Instantiate: arg_validate
+//@ func (*Package).Instantiate
+//@ prop C07
+//@ partial
+//@ assertcall Instantiate: arg_validate
+
